@@ -211,6 +211,9 @@ func init() {
 	registerRule(&RuleDef{ID: "N-ITER", Min: 1, Doc: "api.Create carries nothing but the index and the result list between models", Run: ruleNITER})
 	registerRule(&RuleDef{ID: "PM-ALL", Min: 2, Doc: "the notification loops have no early exit", Run: rulePMALL})
 	registerRule(&RuleDef{ID: "D-WRITE", Min: 1, Doc: "generated files are written whole (truncating)", Run: ruleDWRITE})
+	registerRule(&RuleDef{ID: "A3-DISTINCT", Min: 10, Doc: "mutation helpers never return one mutable object as both new value and difference", Run: ruleA3DISTINCT})
+	add("C03", "A3-DISTINCT")
+	add("C10", "A3-DISTINCT")
 	add("C01", "A3-REPAIR", "S-PURE")
 	add("C03", "T-DELROWS")
 	add("C04", "L4", "T-SCAN")
